@@ -424,6 +424,72 @@ theorem inv_doRootFn (Lk : Int) (c : Ctx) (st : St) (arr : Bool) (name : FName) 
     · simp only [T.i] at e
       exact preKid_root hnr e.1 (Or.inr (by rw [hnb]; exact e.2)) pr.1
 
+theorem good_addChildren {Lk : Int} {c : Ctx} : ∀ (vs : List T) (st : St), Good Lk c st → (∀ v ∈ vs, preKid Lk v = true) →
+    Good Lk c (addChildren c st vs)
+  | [], _, g, _ => g
+  | v :: vs, st, g, hv => by
+    simp only [addChildren]
+    have g1 := good_addChild g (hv v (by simp))
+    split
+    · exact good_addChildren vs _ g1 (fun v' h' => hv v' (by simp [h']))
+    · exact g1
+
+theorem addChildren_pos (c : Ctx) : ∀ (vs : List T) (st : St), (addChildren c st vs).pos = st.pos
+  | [], _ => rfl
+  | v :: vs, st => by
+    have h1 : (addChild c st v).pos = st.pos := by simp only [addChild]; split <;> rfl
+    simp only [addChildren]
+    split
+    · rw [addChildren_pos c vs, h1]
+    · exact h1
+
+theorem inv_doInline (Lk : Int) (c : Ctx) (st : St) (arr : Bool) (body : Body) (hb : BodyInv body) :
+    Inv Lk c st (doInline arr body c st) := by
+  simp only [doInline]
+  generalize hsl : (if st.pos = 0 ∧ (c.buf.length : Int) - st.pos = 0 then ((0 : Int), (c.buf.length : Int)) else (st.pos, (c.buf.length : Int) - st.pos)) = sl
+  split
+  · exact inv_fail _ _ _ _
+  · rename_i hrange
+    simp only [not_or, Int.not_lt] at hrange
+    obtain ⟨hl0, hl1⟩ := hrange
+    generalize hr : body { buf := slice c.buf sl.1.toNat sl.2.toNat, arr := arr, force := c.force } {} = r
+    split
+    · exact inv_fail _ _ _ _
+    · rename_i t ht
+      split
+      · exact inv_fail _ _ _ _
+      · intro g
+        have hs0 : 0 ≤ sl.1 := by
+          rw [← hsl]
+          split
+          · simp
+          · exact g.pos0
+        have hlen := slice_len_int c.buf sl.1 sl.2 hs0 hl0 hl1
+        have gr := hb sl.2 { buf := slice c.buf sl.1.toNat sl.2.toNat, arr := arr, force := c.force } {}
+          ⟨by simp, by simp only [hlen]; exact hl0, by simp only [hlen]; omega, rfl, Or.inr rfl, rfl⟩
+        rw [hr] at gr
+        have key : preKids Lk t.kids = true ∧ 0 ≤ t.len ∧ t.len ≤ sl.2 := by
+          rcases finishDecode_form (.f 0) arr sl.1 sl.2 false false 0 r hl0
+            gr.kids gr.names with ⟨e, he⟩ | ⟨kids, a, hk, hn, ha0, ha1, he⟩
+          · rw [he] at ht; cases ht
+          · rw [he] at ht
+            simp only [Bool.false_eq_true, if_false, DecRes.value.injEq] at ht
+            subst ht
+            have := g.bufL
+            exact ⟨rebaseL_pre hs0 (by omega) kids hk, ha0, ha1⟩
+        have g2 : Good Lk c { st with over := st.over || r.over } :=
+          ⟨g.pos0, g.posL, g.bufL, g.kids, g.names, by simp [g.clean, gr.clean]⟩
+        have g1 := good_addChildren t.kids _ g2 ((preKids_iff _ _).mp key.1)
+        split
+        · exact g1
+        · have := g.pos0; have := g.posL
+          have hle : st.pos + t.len ≤ c.buf.length := by
+            by_cases hz : st.pos = 0 ∧ (c.buf.length : Int) - st.pos = 0
+            · rw [if_pos hz] at hsl; subst hsl; simp only at key; omega
+            · rw [if_neg hz] at hsl; subst hsl; simp only at key; omega
+          refine ⟨by simp only; omega, by simp only; exact hle, g.bufL, g1.kids, g1.names, ?_⟩
+          simp only [g1.clean, Bool.false_or, decide_eq_false_iff_not]; omega
+
 /-! ### the interpreter -/
 
 mutual
@@ -435,6 +501,7 @@ theorem exec_inv : ∀ (p : Prog), BodyInv (exec p)
   | .sub k n body => fun Lk c st => inv_doSub Lk c st k n _ (execList_inv body)
   | .seek abs x restore body => fun Lk c st => inv_doSeek Lk c st abs x restore _ (execList_inv body)
   | .fmt m name arr body => fun Lk c st => inv_doFmt Lk c st m name arr _ (execList_inv body)
+  | .inl arr body => fun Lk c st => inv_doInline Lk c st arr _ (execList_inv body)
   | .fmtBuf name nbits arr body => fun Lk c st => inv_doFmtBuf Lk c st name nbits arr _ (execList_inv body)
   | .rootFn arr name nbits body => fun Lk c st => inv_doRootFn Lk c st arr name nbits _ (execList_inv body)
   | .rootBuf name nbits => fun Lk c st => inv_doRootBuf Lk c st name nbits
